@@ -2,6 +2,8 @@
 // one request per line:  <kind> <hex of input bytes>
 //   I  ReadInteger(val, in, &err, ",)")     R  ReadReal     N  ReadNumber
 //   W  WriteReal(strtod(text))   (input = decimal text of the double)
+//   L  SDAI_LOGICAL::ReadEnum   B  SDAI_BOOLEAN::ReadEnum   E  a three-item enumeration (AHEAD, BEHIND, A1)
+//      (needDelims = 1); value printed: the index assigned (asInt) or - when null
 // answer: kind assigned value severity remaining eof fail   (one line)
 #include <cstdio>
 #include <cstring>
@@ -9,9 +11,26 @@
 #include <string>
 #include <sstream>
 #include <iostream>
+#define protected public
 #include "clstepcore/sdai.h"
 #include "clstepcore/read_func.h"
 #include "clutils/errordesc.h"
+#include "cldai/sdaiEnum.h"
+
+class TestEnum : public SDAI_Enum {
+    public:
+        TestEnum() { v = 3; }
+        int no_elements() const { return 3; }
+        const char * Name() const { return "test_enum"; }
+        const char * element_at( int n ) const {
+            switch( n ) {
+                case 0: return "AHEAD";
+                case 1: return "BEHIND";
+                case 2: return "A1";
+                default: return "UNSET";
+            }
+        }
+};
 
 static std::string unhex( const std::string & h ) {
     std::string s;
@@ -55,6 +74,18 @@ int main() {
             int a = ( k == 'R' ) ? ReadReal( v, in, &err, ",)" ) : ReadNumber( v, in, &err, ",)" );
             sprintf( buf, "%.17g", ( double )v );
             tail( in, k == 'R' ? "R" : "N", a, a ? buf : "-", err );
+        } else if( k == 'L' || k == 'B' || k == 'E' ) {
+            std::istringstream in( data );
+            ErrorDescriptor err;
+            SDAI_LOGICAL lv;
+            SDAI_BOOLEAN bv;
+            TestEnum ev;
+            SDAI_Enum * e = ( k == 'L' ) ? ( SDAI_Enum * )&lv : ( k == 'B' ) ? ( SDAI_Enum * )&bv : ( SDAI_Enum * )&ev;
+            e->ReadEnum( in, &err, 1, 1 );
+            int a = e->is_null() ? 0 : 1;
+            sprintf( buf, "%d", e->asInt() );
+            char kk[2] = { k, 0 };
+            tail( in, kk, a, a ? buf : "-", err );
         } else if( k == 'W' ) {
             double d = strtod( data.c_str(), 0 );
             char rbuf[64];
